@@ -334,13 +334,18 @@ func (c *c09Case) Kind() string {
 }
 
 func genC09(r *rand.Rand, tier string) []Case {
-	n := 8
+	n := 10
 	if tier == "thorough" {
 		n = 80
 	}
 	var cases []Case
 	for i := 0; i < n; i++ {
-		c := &c09Case{DataComp: []int{0, 2, 0, 1, 0, 3, 0, 2}[i%8], OnRead: i%2 == 1, Loader: []string{"slice", "map20", "slice", "skiplist", "slice", "disk", "slice", "map20"}[i%8]}
+		// every index loader under both checking modes (the quick tier's ten cases walk the grid once)
+		grid := []struct {
+			loader string
+			onRead bool
+		}{{"slice", false}, {"disk", false}, {"slice", true}, {"skiplist", false}, {"map20", true}, {"disk", true}, {"map20", false}, {"skiplist", true}, {"slice", false}, {"disk", false}}
+		c := &c09Case{DataComp: []int{0, 2, 0, 1, 0, 3, 0, 2}[i%8], OnRead: grid[i%len(grid)].onRead, Loader: grid[i%len(grid)].loader}
 		c.Vals = []int{-1, -2, 0x00, 0xff, 0x91, 0x4c}
 		if tier == "thorough" && i%20 == 0 {
 			c.Vals = nil
